@@ -1238,6 +1238,9 @@ def gen_scenario(rng, with_faults=True):
         sc["send_plan"] = plan
     if with_faults and rng.random() < 0.1:
         sc["recv_faults"] = {str(rng.choice([0, 1])): pick_errno(rng)}
+    if with_faults and (sc.get("send_plan") or sc.get("recv_faults")) and rng.random() < 0.4:
+        # what a socket error decides must not depend on whether it is logged
+        sc["adj"] = {"log_socket_errors": False}
     r = rng.random()
     if r < 0.12:
         # the listener's maintenance runs in some poll turns; mostly with every idle channel overdue
@@ -1581,3 +1584,18 @@ def shape_audit():
     except Exception as e:  # pragma: no cover
         bad.append(("wasyncore._DISCONNECTED (run-time value)", want, "unreadable: %s" % e))
     return bad
+
+
+# re-synchronised after /repo fixes b1d94ba and 1a765e6: service() reads getattr(task.request, 'path', None) in its two log
+# lines and wraps the ladder's `task.service()  # must not fail` in one more handler (except BaseException: log;
+# task.close_on_finish = True).  Neither touches a shared channel attribute, a lock or a call on a shared object; the
+# worker now reaches the tail of service() where it used to leave it with the exception (C09_escape states the new flow).
+SIGNATURE['channel.HTTPChannel.service'] = (
+    ('R:requests if() { } else { } try { if(R:connected R:will_close) { call:service } else { } } '
+     'except(ClientDisconnected) { } except(BaseException) { if() { if() { } else { } try { } except(KeyError) { } try { '
+     'call:service } except(ClientDisconnected) { } except(BaseException) { } } else { } } if() { with(requests_lock) { '
+     'W:close_when_flushed=True for(R:requests) { call:close } W:requests=[] } } else { if(R:requests) { '
+     'call:_flush_outbufs_below_high_watermark } if() { } call:close with(requests_lock) { R:requests if(R:connected '
+     'R:requests) { call:add_task } elif(R:connected) { call:send_continue(do_close=False) } } } if(R:connected) { '
+     'call:pull_trigger }')
+)
